@@ -12,6 +12,7 @@ are outside the model; that boundary is printed with every result.
 from __future__ import annotations
 
 import ast
+import re
 import builtins
 from dataclasses import dataclass, field
 
@@ -405,6 +406,42 @@ class MayRaise:
                     return f"builtins.{t.ast.args[1].id}"
         return None
 
+    def _declared_dict_attr(self, fi: FuncInfo, arg: ast.expr) -> bool:
+        """``arg`` is (a local copy of) an attribute of some object - ``node.ns_map`` - i.e. program state, not a value taken from the
+        input document.  The model does not type attribute state (it does not report AttributeError on ``node.ns_map.copy()`` either), so
+        ``dict(node.ns_map)`` is, like ``node.ns_map.copy()``, taken to copy a mapping."""
+        from .q import single_defs
+
+        e = arg
+        for _ in range(3):
+            if isinstance(e, ast.Name):
+                d = single_defs(fi.node).get(e.id)
+                if d is None:
+                    break
+                e = d
+        return isinstance(e, ast.Attribute) and isinstance(e.ctx, ast.Load)
+
+    def _yields_pairs(self, fi: FuncInfo, arg: ast.expr) -> bool:
+        """``arg`` is an iterable of 2-tuple displays: a comprehension / generator expression of pairs, zip(a, b), or a call to a generator
+        function of the repository whose every yield is a 2-tuple display."""
+        def pair(e: ast.expr | None) -> bool:
+            return isinstance(e, ast.Tuple) and len(e.elts) == 2 and not any(isinstance(x, ast.Starred) for x in e.elts)
+
+        if isinstance(arg, (ast.GeneratorExp, ast.ListComp, ast.SetComp)):
+            return pair(arg.elt)
+        if isinstance(arg, ast.Call) and isinstance(arg.func, ast.Name) and arg.func.id == "zip" and len(arg.args) == 2 and all(k.arg == "strict" for k in arg.keywords):
+            return True
+        if isinstance(arg, ast.Call):
+            r = self.res.resolve_call(fi, arg)
+            if not r.exact or not r.funcs or r.ctors or r.externals:
+                return False
+            for f in r.funcs:
+                ys = [y for y in walk_no_nested(f.node) if isinstance(y, (ast.Yield, ast.YieldFrom))]
+                if not ys or not all(isinstance(y, ast.Yield) and pair(y.value) for y in ys):
+                    return False
+            return True
+        return False
+
     def _external_raises(self, fi: FuncInfo, call: ast.Call, d: str) -> set[str]:
         key = d
         if key not in self.external:
@@ -418,6 +455,10 @@ class MayRaise:
         if key == "builtins.dict" and call.args and (isinstance(call.args[0], (ast.Dict, ast.DictComp)) or (
                 isinstance(call.args[0], ast.Call) and isinstance(call.args[0].func, ast.Attribute) and call.args[0].func.attr in ("items", "copy"))):
             return set()  # dict(mapping.items()) / dict(mapping.copy()) / dict({...}) cannot fail on shape
+        if key == "builtins.dict" and len(call.args) == 1 and self._yields_pairs(fi, call.args[0]):
+            return set()  # dict(<pairs>): every item is a 2-tuple display
+        if key == "builtins.dict" and len(call.args) == 1 and self._declared_dict_attr(fi, call.args[0]):
+            return set()  # dict(node.ns_map): attribute state, copied like node.ns_map.copy()
         if call.args:
             k = self._isinstance_kind(fi, call, call.args[0])
             if k and (key, k) in NARROW_BY_ARG:
